@@ -137,13 +137,42 @@ func Authenticate(ab *authboss.Authboss, w http.ResponseWriter, req **http.Reque
 		return errors.Wrap(err, "failed to save remember me token")
 	}
 
-	*req = (*req).WithContext(context.WithValue((*req).Context(), authboss.CTXKeyPID, pid))
+	ctx := context.WithValue((*req).Context(), authboss.CTXKeyPID, pid)
+	// The session values written below only reach the session store with the
+	// response. Let the rest of this very request already see them, otherwise
+	// authboss.Middleware2 with RequireFullAuth admits the request that was
+	// authenticated by nothing but the remember cookie.
+	state, _ := ctx.Value(authboss.CTXKeySessionState).(authboss.ClientState)
+	ctx = context.WithValue(ctx, authboss.CTXKeySessionState, authboss.ClientState(rememberedState{state: state, pid: pid}))
+	*req = (*req).WithContext(ctx)
 	authboss.PutSession(w, authboss.SessionKey, pid)
 	authboss.PutSession(w, authboss.SessionHalfAuthKey, "true")
 	authboss.DelCookie(w, authboss.CookieRemember)
 	authboss.PutCookie(w, authboss.CookieRemember, token)
 
 	return nil
+}
+
+// rememberedState overlays the user id and the half-auth mark that Authenticate
+// has just issued over the client state that was read when the request began.
+type rememberedState struct {
+	state authboss.ClientState
+	pid   string
+}
+
+// Get a key from the overlaid state
+func (s rememberedState) Get(key string) (string, bool) {
+	switch key {
+	case authboss.SessionKey:
+		return s.pid, true
+	case authboss.SessionHalfAuthKey:
+		return "true", true
+	}
+
+	if s.state == nil {
+		return "", false
+	}
+	return s.state.Get(key)
 }
 
 // AfterPasswordReset is called after the password has been reset, since
